@@ -440,10 +440,13 @@ func opThreadLast(env *LEnv, args *LVal) *LVal {
 		cells := make([]*LVal, 0, len(expr.Cells)+1)
 		cells = append(cells, expr.Cells...)
 		cells = append(cells, val)
+		// See opThreadFirst: the threaded call takes the written form's location.
+		call := SExpr(cells)
+		call.source = expr.source
 		if i == len(exprs)-1 {
-			return env.Terminal(SExpr(cells))
+			return env.Terminal(call)
 		}
-		val = env.Eval(SExpr(cells))
+		val = env.Eval(call)
 		if val.Type == LError {
 			return val
 		}
@@ -469,10 +472,15 @@ func opThreadFirst(env *LEnv, args *LVal) *LVal {
 		cells = append(cells, expr.Cells[0])
 		cells = append(cells, val)
 		cells = append(cells, expr.Cells[1:]...)
+		// The threaded call stands for the form the user wrote: it takes that
+		// form's location, so an error raised by it (and the frame pushed for
+		// it) point into the source instead of at <native code>.
+		call := SExpr(cells)
+		call.source = expr.source
 		if i == len(exprs)-1 {
-			return env.Terminal(SExpr(cells))
+			return env.Terminal(call)
 		}
-		val = env.Eval(SExpr(cells))
+		val = env.Eval(call)
 		if val.Type == LError {
 			return val
 		}
@@ -822,7 +830,13 @@ func opHandlerBind(env *LEnv, args *LVal) *LVal {
 				defer env.Runtime.PopCondition()
 				expr := []*LVal{hval, Quote(Symbol(val.Str))}
 				expr = append(expr, val.Copy().Cells...)
-				return env.Eval(SExpr(expr))
+				// The handler call is located at the handler expression of
+				// the binding: a handler that rejects the condition's
+				// arguments is reported there, not at <native code> or at an
+				// unrelated enclosing call.
+				call := SExpr(expr)
+				call.source = handler.source
+				return env.Eval(call)
 			}
 			return val
 		}
